@@ -324,7 +324,10 @@ def do_adopt_same(world, child_id, by):
 def do_execute(world, child_id, by, same=False):
     child = world.payloads[child_id]
     fn = world.callables.get(child_id) if same else None  # same: every caller hands in the very same callable object
-    if fn is None:
+    if child.get("builtin"):
+        # a callable that is not a Python function at all (no introspectable signature): what it returns is the outcome
+        fn = {"max": max, "int": int, "divmod": divmod, "str.format": "{}-{}".format}[child["builtin"]]
+    elif fn is None:
         fn = make_payload(world, child)
         if same:
             fn = world.callables.setdefault(child_id, fn)
@@ -445,6 +448,9 @@ def service_class(flavour, shape="plain", base_flavour=None):
         cls = type("Empty_%s" % flavour, (service_class(flavour),), {"__len__": lambda self: 0})
     elif shape == "subclass":
         cls = type("Sub_%s" % flavour, (service_class(flavour),), {})
+    elif shape == "own_init":
+        # a plain subclass with a constructor of its own that does not call the base's (the base has none to speak of)
+        cls = type("OwnInit_%s" % flavour, (service_class(flavour),), {"__init__": lambda self: setattr(self, "configured", True)})
     elif shape == "valued":
         # value semantics (like a dataclass without fields that differ): all instances compare equal and hash alike
         cls = type("Valued_%s" % flavour, (service_class(flavour),), {"__eq__": lambda a, b: type(a) is type(b), "__hash__": lambda self: 7})
